@@ -289,6 +289,28 @@ def check_es(rs: dict) -> tuple[list[tuple[str, str, str, Any]], dict]:
         if off not in entries:
             e = els[0]
             out.append((CONTRACT_E, f"es:printed-op-without-entry:{_family(lab[0])}:{e['what']}", f"{lab[0]}@{off} is printed at {sorted(e['positions'])} but has no source-map entry", text))
+    # (E) for Jump ops: a Jump that leaves its routine can only be printed as `jump @label_N;` (no structured statement spans
+    # routines), so if its routine reaches it, it is printed as its own statement and must have an entry
+    try:
+        from spec.machine import MalformedRoutines, machine
+
+        rout_of = {op.offset: ri for ri, r in enumerate(es.ref_ops) for op in r}
+        mnodes, ments = machine(es.ref_ops, target_index="table")
+        for ri, r in enumerate(es.ref_ops):
+            reach: set = set()
+            stack = [ments[ri]]
+            while stack:
+                nid = stack.pop()
+                if nid in reach or not (isinstance(nid, tuple) and nid and nid[0] == "o") or rout_of.get(nid[1]) != ri:
+                    continue
+                reach.add(nid)
+                stack.extend(mnodes[nid].succ)
+            for op in r:
+                if op.op_code.name == "Jump" and op.params and isinstance(op.params[0], int) and rout_of.get(op.params[0], ri) != ri:
+                    if ("o", op.offset) in reach and op.offset not in entries and tm.transfer_positions:
+                        out.append((CONTRACT_E, "es:printed-op-without-entry:Jump:leaves-its-routine", f"Jump@{op.offset} goes to op {op.params[0]} of routine {rout_of[op.params[0]]}; it can only be printed as a `jump` statement, but has no source-map entry", text))
+    except MalformedRoutines:
+        pass
     # (C)
     if good:
         comp = es.recompile()
